@@ -456,8 +456,14 @@ func runC10(c *Ctx) Result {
 			}
 		}
 	}
+	// pointer stores of generated code while the collector is marking (see w_c10wb.go)
+	if failSig == "" && t.Draw(simrt.Knobs, 5) == 0 {
+		if sig, det := c10BarrierRound(c, t); sig != "" {
+			fail(sig, det)
+		}
+	}
 	if failSig == "" && c10.traceBad != "" {
-		fail("traceback-stops-in-generated-code", "a traceback taken at an opcode boundary / in a callback did not reach the harness sentinel frame: "+clip(c10.traceBad, 400))
+		fail("traceback-stops-in-generated-code","a traceback taken at an opcode boundary / in a callback did not reach the harness sentinel frame: "+clip(c10.traceBad, 400))
 	}
 	nEv := 0
 	for k, n := range c10.kinds {
